@@ -104,8 +104,12 @@ def tzcascade_requests(ctx, items):
     for i, ((spec, name, off, naive), r) in enumerate(zip(items, first)):
         if r.startswith("ok local "):
             z = tz.tzlocal()
-            second.append("parser.localfinal %s %s %s" % (L.optname(naive.replace(tzinfo=z).tzname()),
-                                                         L.optname(naive.replace(tzinfo=z, fold=1).tzname()), r[9:]))
+            try:
+                second.append("parser.localfinal %s %s %s" % (L.optname(naive.replace(tzinfo=z).tzname()),
+                                                             L.optname(naive.replace(tzinfo=z, fold=1).tzname()), r[9:]))
+            except OverflowError:
+                out[i] = "err OverflowError"     # the zone object's own overflow at the edge of the calendar
+                continue
             where.append((i, None))
         elif r.startswith("ok tzi "):
             data, nm = r[7:].split(" ")
@@ -117,8 +121,12 @@ def tzcascade_requests(ctx, items):
             else:
                 s = "".join(chr(int(x)) for x in data[1:].split("."))
                 z = tz.tzstr(s); lab = "str %s" % data[1:]
-            second.append("parser.assign %s %s %s" % (L.optname(naive.replace(tzinfo=z).tzname()),
-                                                     L.optname(naive.replace(tzinfo=z, fold=1).tzname()), nm))
+            try:
+                second.append("parser.assign %s %s %s" % (L.optname(naive.replace(tzinfo=z).tzname()),
+                                                         L.optname(naive.replace(tzinfo=z, fold=1).tzname()), nm))
+            except OverflowError:
+                out[i] = "err OverflowError"
+                continue
             where.append((i, lab))
     if second:
         for (i, lab), r in zip(where, ctx.driver(second)):
@@ -298,8 +306,13 @@ def oracle(ctx):
                 ctx.case(("sf", t, d.isoformat(), tzenv))
                 ctx.count("strict_accepted_texts")
                 if f2 != strict:
-                    ctx.violation("text accepted without fuzzy must give the same result with fuzzy",
-                                  L.Call(t, default=d, fuzzy=True).describe(), {"strict": strict, "fuzzy": f2})
+                    case = L.Call(t, default=d, fuzzy=True).describe()
+                    if two_markers(case):
+                        ctx.count("known_class_D-C15_hits")
+                        if ctx.hist["known_class_D-C15_hits"] > 25:
+                            continue                     # keep the (capped) violation list for anything else
+                    ctx.violation("text accepted without fuzzy must give the same result with fuzzy", case,
+                                  {"strict": strict, "fuzzy": f2})
         # ---- (e) unknown abbreviation: naive + warning (TZ-independent)
         L.set_tz("UTC")
         for nm in ["BRST", "JST", "ABCDE", "XYZ", "PDT"]:
